@@ -1,11 +1,11 @@
 (* CasesText.v — evaluation of the `textforms` projection (C17): stream value text forms, typed text envelopes,
    JSON report codec (struct level), Pack/Unpack (implementation only). *)
-From DS Require Import Base Decimal StreamValue TextForms.
+From DS Require Import Base Decimal StreamValue TextForms JsonReportBytes.
 
 Inductive text_case :=
 | TText (v : sval) (text : res bytes) (back : res sval)       (* MarshalText, then UnmarshalTypedTextStreamValue(Type, text) *)
 | TParse (t : Z) (s : bytes) (out : res sval)                 (* UnmarshalTypedTextStreamValue on arbitrary text *)
-| TReport (r : freport) (enc : res jreport) (dec : res freport)   (* Encode (viewed as the JSON struct), Decode(Encode) *)
+| TReport (r : freport) (enc : res jreport) (raw : option bytes) (dec : res freport)   (* Encode (as the JSON struct, and its exact bytes), Decode(Encode) *)
 | TDecode (j : jreport) (out : res freport)                   (* Decode of a JSON document built from j *)
 | TPack (t : ptuple) (packed : res jpack) (unpacked : res ptuple).   (* Pack (viewed as the JSON struct), Unpack(Pack) *)
 
@@ -36,9 +36,15 @@ Definition text_agrees (c : text_case) : bool :=
       res_agree bytes_eqb (Ok (sval_text v)) text &&
       match text with Ok s => ores_agree sval_eqb (typed_parse (S (length s)) (sv_type v) s) back | _ => true end
   | TParse t s out => ores_agree sval_eqb (typed_parse (S (length s)) t s) out
-  | TReport r enc dec =>
+  | TReport r enc raw dec =>
       res_agree jreport_eqb (json_encode r) enc &&
-      match enc with Ok j => ores_agree freport_eqb (json_decode j) dec | _ => true end
+      match enc with Ok j => ores_agree freport_eqb (json_decode j) dec | _ => true end &&
+      (* byte level: the model writes exactly the bytes json.Marshal wrote, and reads them back *)
+      match json_encode r, raw with
+      | Ok j, Some bs => bytes_eqb (json_report_bytes j) bs &&
+                         match json_report_parse bs with Some j' => jreport_eqb j j' | None => false end
+      | _, _ => true
+      end
   | TDecode j out => ores_agree freport_eqb (json_decode j) out
   | TPack t packed unpacked =>
       res_agree jpack_eqb (Ok (pack_model t)) packed &&
@@ -48,7 +54,7 @@ Definition text_skipped (c : text_case) : bool :=
   match c with
   | TText v (Ok s) _ => match typed_parse (S (length s)) (sv_type v) s with None => true | _ => false end
   | TParse t s _ => match typed_parse (S (length s)) t s with None => true | _ => false end
-  | TReport _ (Ok j) _ | TDecode j _ => match json_decode j with None => true | _ => false end
+  | TReport _ (Ok j) _ _ | TDecode j _ => match json_decode j with None => true | _ => false end
   | _ => false
   end.
 
@@ -57,7 +63,7 @@ Definition c17_case (c : text_case) : bool :=
   match c with
   | TText v text back =>
       match text, back with Ok _, Ok v' => sval_equiv v v' | _, _ => false end
-  | TReport r enc dec =>
+  | TReport r enc _ dec =>
       if forallb (fun v => match v with Some _ => true | None => false end) (f_values r) && negb (f_seq r =? 0) then
         match enc, dec with Ok _, Ok r' => freport_equiv r r' | _, _ => false end
       else negb (is_panic enc) && negb (is_panic dec)
@@ -71,6 +77,6 @@ Definition text_eval (cs : list text_case) :=
    [length cs; length (filter text_skipped cs);
     length (filter (fun c => match c with TText _ _ _ => true | _ => false end) cs);
     length (filter (fun c => match c with TParse _ _ _ => true | _ => false end) cs);
-    length (filter (fun c => match c with TReport _ _ _ => true | _ => false end) cs);
+    length (filter (fun c => match c with TReport _ _ _ _ => true | _ => false end) cs);
     length (filter (fun c => match c with TDecode _ _ => true | _ => false end) cs);
     length (filter (fun c => match c with TPack _ _ _ => true | _ => false end) cs)]).
